@@ -267,7 +267,7 @@ Proof.
         cbn [g_index gbytes gint length Z.of_nat Pos.of_succ_nat Pos.succ Z.ltb Z.leb Z.compare Pos.compare Pos.compare_cont
              orb nth_error Z.to_nat Pos.to_nat Pos.iter_op Nat.add bind g_shl g_bor nth Z.add]).
   all: change (Pos.to_nat 1) with 1%nat. all: cbn [nth_error bind g_shl gint Z.ltb Z.compare g_bor].
-  all: change 8 with (Z.of_N 8). all: rewrite N2Z_shiftl, N2Z_lor.
+  all: change 8 with (Z.of_N 8). all: rewrite N2Z_shiftl, N2Z_lor. all: rewrite ?(N.lor_comm (N.shiftl x2 8) x3).
   all: set (sz := N.lor x3 (N.shiftl x2 8)).
   all: unfold bindIO at 1. all: fold (gint (Z.of_N sz)). all: rewrite read_bytes_ioZ by lia. all: unfold lift_m, wset. all: cbn [w_stream w_eff w_store].
   all: replace (Z.to_nat (Z.of_N sz)) with (N.to_nat sz) by lia.
@@ -563,7 +563,8 @@ Ltac ev1 :=
     | match goal with H : negb ?b = _ |- context [negb ?b] => rewrite H end
     | match goal with H : N.eqb ?a ?b = _ |- context [N.eqb ?a ?b] => rewrite H end
     | match goal with H : nmea_hdr ?x = _ |- context [nmea_hdr ?x] => rewrite H end
-    | progress cbn [andb orb negb N.eqb Pos.eqb] ].
+    | progress cbn [andb orb negb N.eqb Pos.eqb]
+    | match goal with |- context [if ?b then ?x else ?x] => replace (if b then x else x) with x by (destruct b; reflexivity) end ].
 Ltac ev := repeat ev1; reflexivity.
 
 (* one step of the block at the head of the goal `prog w = _` *)
